@@ -2917,7 +2917,7 @@ func (s *scanner) reportInvalidTLA() {
 	for sourceIndex := range s.results {
 		result := &s.results[sourceIndex]
 
-		if result.ok && result.tlaCheck.parent.IsValid() {
+		if result.ok {
 			if repr, ok := result.file.inputFile.Repr.(*graph.JSRepr); ok {
 				for _, record := range repr.AST.ImportRecords {
 					// Require of a top-level await chain is forbidden
@@ -2974,7 +2974,9 @@ func (s *scanner) reportInvalidTLA() {
 				// Make sure that if we wrap this module in a closure, the closure is also
 				// async. This happens when you call "import()" on this module and code
 				// splitting is off.
-				repr.Meta.IsAsyncOrHasAsyncDependency = true
+				if result.tlaCheck.parent.IsValid() {
+					repr.Meta.IsAsyncOrHasAsyncDependency = true
+				}
 			}
 		}
 	}
